@@ -9,6 +9,7 @@
 mod c07;
 mod c08;
 mod c14;
+mod c15;
 mod c19;
 mod c20;
 mod shell;
@@ -61,6 +62,7 @@ fn run_prop(prop: &str, ctx: &Ctx) -> Vec<LayerReport> {
         "C07" => c07::run(ctx),
         "C08" => c08::run(ctx),
         "C14" => c14::run(ctx),
+        "C15" => c15::run(ctx),
         "C19" => c19::run(ctx),
         "C20" => c20::run(ctx),
         _ => {
@@ -75,6 +77,7 @@ fn replay(prop: &str, layer: &str, case: &serde_json::Value) -> Result<(String, 
         "C07" => c07::replay(layer, case),
         "C08" => c08::replay(layer, case),
         "C14" => c14::replay(layer, case),
+        "C15" => c15::replay(layer, case),
         "C19" => c19::replay(layer, case),
         "C20" => c20::replay(layer, case),
         _ => Err(format!("bvinproc: no replay for {prop}")),
